@@ -190,7 +190,8 @@ Inductive fd :=
 | Sub (base : fd) (ids : list id).
     (* _base, _client_ids (a set: duplicate-free list; only membership and sorted() are used) *)
 
-Definition mem_ids (tbl : table) : list id := bsort (map fst tbl).
+(* TRANSLATED from __init__: self._client_ids = sorted(self._client_to_data_mapping.keys()) *)
+Definition mem_ids (tbl : table) : list id := in_memory_init_client_ids tbl.
 
 (* {client_id: mapping[client_id] for client_id in client_ids} *)
 Notation restrict := brestrict (only parsing).
